@@ -259,6 +259,9 @@ func TestC10(t *testing.T) {
 				case 1: // an id that only differs from a real one by surrounding blanks or case
 					real := hexsha(kind + tn + drawAcc(rt, "member").Bech)
 					ids = append(ids, rapid.SampledFrom([]string{" " + real, real + " ", strings.ToUpper(real)}).Draw(rt, "nearId"))
+				case 2: // an id of the OTHER list of the same entry (a viewer id in an editors message and vice versa)
+					other := map[string]string{"v": "e", "e": "v"}[kind]
+					ids = append(ids, hexsha(other+tn+drawAcc(rt, "member").Bech))
 				default:
 					ids = append(ids, hexsha(kind+tn+drawAcc(rt, "member").Bech))
 				}
